@@ -201,6 +201,12 @@ func c18(p *Prog, r *Report) {
 		}
 		r.Check(okAll && n > 0, R5, "client NameKeyID = SHA-256(EncapKey.Marshal())", p.Pos(fn.Pos()), want, detail+", required "+want)
 	}
+	// the serialized key that is hashed must be the encoding of the key's own
+	// fields: no encoding cache may be seeded from outside Marshal
+	const R6 = "C18.serialization-not-from-a-seeded-cache"
+	r.Rule(R6, "a key type's Marshal returns the encoding of its fields: an encoding cache, if it has one, is filled only by that Marshal (shared with C04)", 1)
+	encodingCaches(p, r, R6, func(typ string) bool { return strings.Contains(typ, "Key") })
+
 }
 
 // sameObject: value v is (a load of) the object pointer dst designates.
